@@ -6,7 +6,10 @@
 // behaviour-preserving rewrites of that plumbing do not change the trace.
 //
 // Input:  case <id> cb <adapter> <T> <alloc> [<conv-shape> <To> <behaviour> [hlp]]
-//           adapter: cbawait | cbref | mkprom | discard | conv | callfn      T: int | void     alloc: heap | stor | none
+//           adapter: cbawait | cbref | cbawt | cbwrap | mkprom | discard | conv | callfn | callawt
+//                    (cbawt: callback_await on an awaiter object obtained with retrieve_awaiter(); cbwrap: on an
+//                     awaiter_wrapper around it; callawt: call_fn_awaiter subscribed by hand: ready() / subscribe / resume)
+//           T: int | void     alloc: heap | stor | none
 //           conv-shape: m (member, returns To) | p (member, gets the promise) | f (free fn) | c (free fn + context)
 //           behaviour: ok | throw | leave (p only: neither resolves nor throws)
 //         g [self value <v> | self exc <c> | self drop]      thread 0: registers, then (self) invokes the promise itself
@@ -14,6 +17,8 @@
 //         imm value <v> | imm exc <c> | imm drop             the factory returns future<T>::set_value/.. (no promise)
 //         r value <v> | r exc <c> | r drop                   resolver thread: invokes the shared promise
 //         d                                                  thread destroying the promise after all invocations
+//         read get|star|bool|not                             how the callback_await callback inspects its await_result:
+//                                                            get() | operator* | operator bool first | operator! first
 //         cbthrow                                            contract violation: the callback_await callback throws (first call)
 //         sched ...
 //         round                                              the next awaited operation on the SAME helper object (future_conv and
@@ -134,6 +139,7 @@ struct cstor {
 struct Env {
     std::string behav = "ok";
     bool cb_throws = false;
+    std::string read = "get";
     int cb_calls = 0, conv_calls = 0;
     void log(const std::string &s) { S().log_line(s); }
     // the converter body shared by all shapes: logs its input, throws or converts
@@ -182,10 +188,26 @@ static std::string observe_future(future<T> &f) {
     if constexpr (std::is_void_v<T>) return observe_void([&] { f.value(); });
     else return observe_int([&] { return f.value(); });
 }
+// what the callback sees in its await_result, read in the spelling chosen by the input (`read` line)
 template <typename T>
-static std::string observe_result(await_result<T> &r) {
-    if constexpr (std::is_void_v<T>) return observe_void([&] { r.get(); });
-    else return observe_int([&] { return r.get(); });
+static std::string observe_result(await_result<T> &r, const std::string &style = "get") {
+    auto by_get = [&]() -> std::string {
+        if constexpr (std::is_void_v<T>) return observe_void([&] { r.get(); });
+        else return observe_int([&] { return r.get(); });
+    };
+    auto by_star = [&]() -> std::string {
+        if constexpr (std::is_void_v<T>) return observe_void([&] { r.get(); });   // await_result<void> has no operator*
+        else return observe_int([&] { return *r; });
+    };
+    if (style == "star") return by_star();
+    if (style == "bool" || style == "not") {
+        bool has = style == "bool" ? static_cast<bool>(r) : !(!r);
+        std::string s = (style == "bool") ? by_get() : by_star();
+        // the test must agree with what reading the result does
+        if (has != (s[0] == 'v')) return std::string(style == "bool" ? "badbool:" : "badnot:") + s;
+        return s;
+    }
+    return by_get();
 }
 
 template <typename T>
@@ -292,11 +314,27 @@ struct CfObj {
     }
 };
 
+// call_fn_awaiter (awaiter.h): an awaiter that calls a member function; the user subscribes it by hand
+template <typename T>
+struct CaObj {
+    Env *env;
+    std::optional<future<T>> fut;
+    explicit CaObj(Env *e) : env(e) {}
+    suspend_point<void> done(awaiter *) noexcept {
+        trk::Off o;
+        env->cb_calls++;
+        env->log("cb " + observe_future(*fut));
+        return {};
+    }
+    call_fn_awaiter<CaObj, &CaObj::done> awt{this};
+};
+
 struct Round {
     std::vector<std::vector<std::string>> threads;   // g / r / d lines in order
     std::vector<std::string> pre, imm;
     std::vector<int> sched;
     bool cbthrow = false;
+    std::string read = "get";
 };
 struct Case {
     std::vector<std::string> hdr;
@@ -335,6 +373,7 @@ struct Runner {
 
     void run_round(const Round &c) {
         env.cb_throws = c.cbthrow;
+        env.read = c.read;
         env.cb_calls = env.conv_calls = 0;
         int allocs0 = trk::allocs + cstor::allocs, frees0 = trk::frees + cstor::frees;
         src.prom.reset();
@@ -399,7 +438,7 @@ static void setup_simple(Runner<T> &R, const std::string &adapter, const std::st
             auto cb = [env](await_result<T> r) {
                 trk::Off o;
                 env->cb_calls++;
-                env->log("cb " + observe_result(r));
+                env->log("cb " + observe_result(r, env->read));
                 if (env->cb_throws && env->cb_calls == 1) throw test_exc(88);   // outside the contract
             };
             // rvalues: callback_await stores an lvalue callback by reference (the caller would have to keep it alive)
@@ -416,7 +455,7 @@ static void setup_simple(Runner<T> &R, const std::string &adapter, const std::st
             auto cb = [env](await_result<T> r) {
                 trk::Off o;
                 env->cb_calls++;
-                env->log("cb " + observe_result(r));
+                env->log("cb " + observe_result(r, env->read));
             };
             ext->emplace(factory);
             R.register_tracked([&] {
@@ -425,6 +464,50 @@ static void setup_simple(Runner<T> &R, const std::string &adapter, const std::st
             });
         };
         R.round_end = [ext] { ext->reset(); };
+    } else if (adapter == "cbawt" || adapter == "cbwrap") {
+        // callback_await on an awaiter object (no operator co_await): the awaiter retrieve_awaiter() hands out for the
+        // caller-owned future, awaited by reference; or (cbwrap) the awaiter_wrapper retrieve_awaiter() builds around it
+        using AW = co_awaiter<future<T>>;
+        using WR = decltype(retrieve_awaiter(std::declval<AW &>()));
+        auto ext = std::make_shared<std::optional<future<T>>>();
+        auto aw = std::make_shared<std::optional<AW>>();
+        auto wr = std::make_shared<std::optional<WR>>();
+        bool wrap = adapter == "cbwrap";
+        R.reg = [&R, env, factory, alloc, ext, aw, wr, wrap] {
+            auto cb = [env](await_result<T> r) {
+                trk::Off o;
+                env->cb_calls++;
+                env->log("cb " + observe_result(r, env->read));
+            };
+            {
+                trk::Off o;
+                ext->emplace(factory);
+                aw->emplace(retrieve_awaiter(**ext));
+                if (wrap) wr->emplace(retrieve_awaiter(**aw));
+            }
+            R.register_tracked([&] {
+                if (wrap) {
+                    if (alloc == "stor") callback_await_alloc<cstor, WR &>(R.stor, std::move(cb), **wr);
+                    else callback_await<WR &>(std::move(cb), **wr);
+                } else {
+                    if (alloc == "stor") callback_await_alloc<cstor, AW &>(R.stor, std::move(cb), **aw);
+                    else callback_await<AW &>(std::move(cb), **aw);
+                }
+            });
+        };
+        R.round_end = [ext, aw, wr] { wr->reset(); aw->reset(); ext->reset(); };
+    } else if (adapter == "callawt") {
+        auto obj = std::make_shared<CaObj<T>>(env);
+        R.reg = [&R, obj, factory] {
+            R.register_tracked([&] {
+                obj->fut.emplace(factory);
+                auto a = obj->fut->operator co_await();
+                // the subscription protocol of co_awaiter::subscribe: refused = already resolved, the caller completes
+                if (a.await_ready() || !a.subscribe(&obj->awt)) obj->awt.resume();
+            });
+        };
+        R.round_end = [obj] { obj->fut.reset(); };
+        R.cleanup = [obj]() mutable { obj.reset(); };
     } else if (adapter == "mkprom") {
         R.reg = [&R, env, alloc] {
             auto cb = [env](future<T> &f) {
@@ -531,6 +614,7 @@ int main() {
         if (w[0] == "pre") { rd.pre = w; continue; }
         if (w[0] == "imm") { rd.imm = w; continue; }
         if (w[0] == "cbthrow") { rd.cbthrow = true; continue; }
+        if (w[0] == "read" && w.size() > 1) { rd.read = w[1]; continue; }
         if (w[0] == "sched") { for (std::size_t i = 1; i < w.size(); i++) rd.sched.push_back(atoi(w[i].c_str())); continue; }
         if (w[0] != "end") continue;
         std::cout << "case " << c.hdr[1] << std::endl;
